@@ -7,10 +7,9 @@
     +-2): exactly min(claimed, yielded) items go in, the others are destroyed once each, the
     result is a valid vector.  Sites covered by theorems: clear / vector drop, removal-handle
     drop, Drain::drop (erased and typed arm), lazy clone in push and insert, whole-vector
-    clone, Splice::drop with a misreporting iterator.  PARTIAL: a panic of the replacement
-    iterator's next() or of an element destructor inside Splice::drop, and the unwinding glue of
-    [Interp.exec] (by-value arguments dropped while unwinding), are covered by the fuse sweeps of
-    the correspondence check only. *)
+    clone, Splice::drop with a misreporting iterator.  A panic of the replacement iterator's next() or of an element destructor inside Splice::drop, and
+    the unwinding glue of [Interp.exec], are covered by the fused history fragment below; splices by
+    misreporting iterators are steps of the (panic-free) history fragment. *)
 From AV.Model Require Import Base Bytes Vec Ops.
 From AV.Spec Require Import VecSpec.
 From AV.Proofs Require Import MemLemmas Rep VecProofs TempProofs RangeProofs FaultProofs CloneProofs.
@@ -169,6 +168,38 @@ Theorem C06_splice_liar :
                                      | _ => false
                                      end) (uevents u).
 Proof. exact splice_drop_liar. Qed.
+
+(** the same with everything the step shows: backend, identity counter, the exact event sequence (the iterator is asked min(claimed, yielded+1) times), capacity untouched when the announcement fits *)
+Theorem C06_splice_liar_full :
+  forall (c : cfg) (v : vec) (u : uw) (xs : list N) (s e i j : nat) (known : bool) 
+           (ts : list N) (k : bool) (cl : nat),
+         cfg_wf c ->
+         RangeAlive c v xs s e i j ->
+         ufuse u = None ->
+         Forall (tok_ok (szn c)) ts ->
+         let new_len := (s + cl + (length xs - e))%nat in
+         N.of_nat new_len <= vcap v \/ grow_ok c v (N.of_nat new_len) ->
+         let d :=
+           {|
+             dcur := {| ci := N.of_nat i; ce := N.of_nat j |};
+             dstart := N.of_nat s;
+             dend := N.of_nat e;
+             dorig := N.of_nat (length xs)
+           |} in
+         let written := Nat.min cl (length ts) in
+         exists (v' : vec) (u' : uw),
+           splice_drop c known d (N.of_nat cl) (map (fun t : N => honest_item c t k) ts) (v, u) =
+           Ok tt (v', u') /\
+           Rep c v' (sp_splice s e (firstn written ts) xs) /\
+           vbk v' = vbk v /\
+           unext u' = unext u /\
+           ufuse u' = None /\
+           uevents u' =
+           (if c_dg c then rev (map EDrop (skipn written ts)) else []) ++
+           repeat ENext (Nat.min cl (S (length ts))) ++
+           (if c_dg c then rev (map EDrop (firstn (j - i) (skipn i xs))) else []) ++ uevents u /\
+           (N.of_nat new_len <= vcap v -> vcap v' = vcap v).
+Proof. exact splice_drop_liar_full. Qed.
 
 Theorem C06_prefix_nodup :
   forall (xs : list N) (n : nat), NoDup xs -> NoDup (firstn n xs).
@@ -391,6 +422,7 @@ Print Assumptions C06_push_clone_panics.
 Print Assumptions C06_insert_clone_panics.
 Print Assumptions C06_clone_vec_panics.
 Print Assumptions C06_splice_liar.
+Print Assumptions C06_splice_liar_full.
 Print Assumptions C06_prefix_nodup.
 Print Assumptions C06_drops_distinct.
 Print Assumptions C06_clear_fused.
